@@ -136,6 +136,20 @@ func (s *Solver) Check(q string) Result {
 	return r
 }
 
+// CheckQuick runs only the first solver with a short budget and no cache
+// (used for vacuity canaries, where only "unsat" matters).
+func (s *Solver) CheckQuick(q string, budget time.Duration) Result {
+	t0 := time.Now()
+	st, out, _ := runOne(context.Background(), solvers[0], q, budget)
+	r := Result{Status: st, Solver: solvers[0].name, TimeS: time.Since(t0).Seconds()}
+	if st == "sat" {
+		r.Values = parseValues(out)
+	} else if st != "unsat" {
+		r.Status = "unknown"
+	}
+	return r
+}
+
 func (s *Solver) check(q string) Result {
 	t0 := time.Now()
 	outputs := map[string]string{}
